@@ -583,11 +583,19 @@ func init() {
 				return
 			}
 			r := s.R
+			// note texts may hold anything a caller has in a string, also what XML cannot carry: whatever the call answers
+			// (a replacement character, an error), the package saved afterwards has to be consistent
+			noteText := func() string {
+				if r.Chance(1, 3) {
+					return gen.HostileString(r)
+				}
+				return s.Str()
+			}
 			switch r.Intn(6) {
 			case 0, 1:
-				s.Doc.AddFootnote(s.Str(), s.Str())
+				s.Doc.AddFootnote(s.Str(), noteText())
 			case 2:
-				s.Doc.AddEndnote(s.Str(), s.Str())
+				s.Doc.AddEndnote(s.Str(), noteText())
 			case 3:
 				cfg := &document.FootnoteConfig{NumberFormat: []document.FootnoteNumberFormat{"decimal", "lowerRoman", "upperRoman", "lowerLetter", "upperLetter", "symbol", ""}[r.Intn(7)], StartNumber: r.Range(-1, 9),
 					RestartEach: []document.FootnoteRestart{"continuous", "eachSect", "eachPage", ""}[r.Intn(4)], Position: []document.FootnotePosition{"pageBottom", "beneathText", "sectEnd", "docEnd", ""}[r.Intn(5)]}
@@ -597,7 +605,7 @@ func init() {
 				s.Doc.SetFootnoteConfig(cfg)
 			case 4:
 				if p := s.pickPara(); p != nil && len(p.Runs) > 0 {
-					s.Doc.AddFootnoteToRun(&p.Runs[0], s.Str())
+					s.Doc.AddFootnoteToRun(&p.Runs[0], noteText())
 				}
 			case 5:
 				s.Doc.GetFootnoteCount()
